@@ -3,8 +3,8 @@
     [Print Assumptions].
 
     Model (Sem/SemModel.v): a sequential history of critical sections of
-    internal/vkgo/pkg/semaphore/semaphore.go; [step false] is the code as it is, [step true] the code with
-    the cancel-path guard [s.size > s.cur] replaced by [s.size >= s.cur].
+    internal/vkgo/pkg/semaphore/semaphore.go; [step code_guard] (= [step true]) is the code as it is, with
+    the cancel-path guard [s.size >= s.cur]; [step false] is the code before the repair of F4 ([>]).
     Side conditions: [in_range] (all values below 2^62 in absolute value: no int64 wrap-around),
     [clean] (no call panics).  [states] are the states after every complete operation, so the theorems
     speak about every reachable quiescent state, for histories of any length. *)
@@ -35,31 +35,32 @@ Theorem C42_no_barging : forall fx s o,
 Proof. exact step_no_barging. Qed.
 Print Assumptions C42_no_barging.
 
-(** Never loses a wakeup -- FULL statement (false for the code as it is, see C42_head_blocked_refuted):
-      forall h s, bounded s -> wf s -> in_range false s h -> clean false s h -> head_ok s ->
-                  Forall head_ok (states false s h).
-    Proved part 1: for the code as it is, when every Acquire has weight > 0. *)
-Theorem C42_head_blocked_partial : forall h s,
+(** Never loses a wakeup (MAIN theorem, the code as it is since /repo 61b3423d, guard [>=] in the cancel
+    path): in every state reachable by complete operations -- any weights, including 0 -- either nobody is
+    queued or the first waiter does not fit. *)
+Theorem C42_head_blocked : forall h s,
+  bounded s -> wf s -> in_range code_guard s h -> clean code_guard s h ->
+  head_ok s -> Forall head_ok (states code_guard s h).
+Proof. intros. apply head_blocked_gen; auto. Qed.
+Print Assumptions C42_head_blocked.
+
+(** Historical lemmas about the OLD guard ([s.size > s.cur], [step false]); they explain what a regression
+    to [>] breaks and why the oracle keeps the signature of finding F4.
+    With the old guard the statement only holds when every Acquire has weight > 0 ... *)
+Theorem C42_head_blocked_old_guard_positive : forall h s,
   bounded s -> wf s -> in_range false s h -> clean false s h ->
   Forall wpos (waiters s) -> acquire_weights (fun n => 0 < n) h ->
   head_ok s -> Forall head_ok (states false s h).
 Proof. intros. apply head_blocked_gen; auto. Qed.
-Print Assumptions C42_head_blocked_partial.
+Print Assumptions C42_head_blocked_old_guard_positive.
 
-(** Proved part 2: the full statement for the repaired guard ([>=] instead of [>] in the cancel path). *)
-Theorem C42_head_blocked_repaired : forall h s,
-  bounded s -> wf s -> in_range true s h -> clean true s h ->
-  head_ok s -> Forall head_ok (states true s h).
-Proof. intros. apply head_blocked_gen; auto. Qed.
-Print Assumptions C42_head_blocked_repaired.
-
-(** Refutation of the full statement for the code as it is (finding F4): size 1; Acquire(1) succeeds;
-    Acquire(1) and Acquire(0) queue up; the context of the first waiter is cancelled: it is the front,
-    size = cur, so notifyWaiters is skipped and the weight-0 waiter, which fits, stays blocked. *)
-Theorem C42_head_blocked_refuted :
+(** ... and is false otherwise (finding F4, fixed): size 1; Acquire(1) succeeds; Acquire(1) and Acquire(0)
+    queue up; the context of the first waiter is cancelled: it is the front, size = cur, so the old guard
+    skips notifyWaiters and the weight-0 waiter, which fits, stays blocked. *)
+Theorem C42_head_blocked_old_guard_refuted :
   exists h, in_range false (init 1) h /\ clean false (init 1) h /\ ~ head_ok (run false (init 1) h).
 Proof. exact head_blocked_refuted. Qed.
-Print Assumptions C42_head_blocked_refuted.
+Print Assumptions C42_head_blocked_old_guard_refuted.
 
 (** Callers parked in the branch [n > s.size] cannot be served -- as long as nobody calls SetSize. *)
 Theorem C42_doomed_blocked_partial : forall fx h s,
@@ -70,34 +71,32 @@ Print Assumptions C42_doomed_blocked_partial.
 (** With SetSize the statement is false (finding F13): the parked caller is not in the queue, so the notifyWaiters of
     SetSize cannot see it; it stays blocked with an empty queue and cur = 0 although it now fits. *)
 Theorem C42_doomed_blocked_refuted :
-  exists h, in_range false (init 1) h /\ clean false (init 1) h /\
-            waiters (run false (init 1) h) = [] /\ cur (run false (init 1) h) = 0 /\
-            ~ doomed_ok (run false (init 1) h).
+  exists h, in_range code_guard (init 1) h /\ clean code_guard (init 1) h /\
+            waiters (run code_guard (init 1) h) = [] /\ cur (run code_guard (init 1) h) = 0 /\
+            ~ doomed_ok (run code_guard (init 1) h).
 Proof. exact doomed_blocked_refuted. Qed.
 Print Assumptions C42_doomed_blocked_refuted.
 
 (** The side conditions are needed. *)
 Theorem C42_head_blocked_needs_clean :
-  exists h, in_range false (init 1) h /\ acquire_weights (fun n => 0 < n) h /\
-            ~ head_ok (run false (init 1) h).
+  exists h, in_range code_guard (init 1) h /\ acquire_weights (fun n => 0 < n) h /\
+            ~ head_ok (run code_guard (init 1) h).
 Proof. exact head_blocked_needs_clean. Qed.
 Print Assumptions C42_head_blocked_needs_clean.
 
 Theorem C42_no_overadmit_needs_bounded :
-  exists h, clean false (init (-2)) h /\ ~ Forall admit_ok (events false (init (-2)) h).
+  exists h, clean code_guard (init (-2)) h /\ ~ Forall admit_ok (events code_guard (init (-2)) h).
 Proof. exact no_overadmit_needs_bounded. Qed.
 Print Assumptions C42_no_overadmit_needs_bounded.
 
-(** Corollaries for a fresh semaphore (NewWeighted n). *)
+(** Corollary for a fresh semaphore (NewWeighted n), current code, any weights. *)
 Corollary C42_fresh : forall n h, -L < n < L ->
-  in_range false (init n) h -> clean false (init n) h ->
-  Forall admit_ok (events false (init n) h) /\
-  (acquire_weights (fun n => 0 < n) h -> Forall head_ok (states false (init n) h)).
+  in_range code_guard (init n) h -> clean code_guard (init n) h ->
+  Forall admit_ok (events code_guard (init n) h) /\ Forall head_ok (states code_guard (init n) h).
 Proof.
   intros n h Hn Hr Hc. split.
   - apply no_overadmit; [apply init_bounded; assumption | apply init_wf | assumption].
-  - intros Ha. apply head_blocked_gen; auto using init_bounded, init_wf, init_head_ok.
-    right. split; [constructor | assumption].
+  - apply head_blocked_gen; auto using init_bounded, init_wf, init_head_ok.
 Qed.
 Print Assumptions C42_fresh.
 
@@ -106,33 +105,37 @@ Print Assumptions C42_fresh.
 Definition demo : list op :=
   [OAcquire 2; OAcquire 1; OAcquire 2; OTry 1; OForce 1; ORelease 2; OResize 5; OCancel 2%N; ORelease 1].
 
-Example demo_good : good_b false (init 2) demo = true.
+Example demo_good : good_b code_guard (init 2) demo = true.
 Proof. vm_compute. reflexivity. Qed.
 
 Example demo_events :
-  events false (init 2) demo =
+  events code_guard (init 2) demo =
   [EAdmit (Some 0%N) 2 0 2; EAdmit (Some 1%N) 1 1 2; EAdmit (Some 2%N) 2 2 5].
 Proof. vm_compute. reflexivity. Qed.
 
 Example demo_positive : acquire_weights (fun n => 0 < n) demo.
 Proof. repeat constructor. Qed.
 
-Example demo_final : run false (init 2) demo = mkState 5 3 [] [] 3%N.
+Example demo_final : run code_guard (init 2) demo = mkState 5 3 [] [] 3%N.
 Proof. vm_compute. reflexivity. Qed.
 
-(** The F4 history step by step: after the cancel the queue is [(2, 0)] with size = cur = 1. *)
-Example f4_final : run false (init 1) f4_history = mkState 1 1 [(2%N, 0)] [] 3%N.
-Proof. vm_compute. reflexivity. Qed.
+(** The F4 history on the current code: the cancel admits the weight-0 waiter in the same critical section
+    (and the history satisfies the hypotheses of C42_head_blocked) ... *)
+Example f4_now : good_b code_guard (init 1) f4_history = true /\
+                 run code_guard (init 1) f4_history = mkState 1 1 [] [] 3%N /\
+                 evs (step code_guard (run code_guard (init 1) [OAcquire 1; OAcquire 1; OAcquire 0]) (OCancel 1%N))
+                 = [EAdmit (Some 2%N) 0 1 1].
+Proof. vm_compute. repeat split; reflexivity. Qed.
 
-(** ... and the repaired guard admits the weight-0 waiter in the same critical section. *)
-Example f4_repaired : run true (init 1) f4_history = mkState 1 1 [] [] 3%N.
+(** ... with the old guard the queue was left as [(2, 0)] with size = cur = 1. *)
+Example f4_old_guard : run false (init 1) f4_history = mkState 1 1 [(2%N, 0)] [] 3%N.
 Proof. vm_compute. reflexivity. Qed.
 
 (** The cancel/admit race: the waiter admitted by Release ignores its cancellation (RNone: nothing is
     removed, nothing is given back). *)
 Example race_admitted :
-  let s1 := run false (init 1) [OAcquire 1; OAcquire 1] in
-  let s2 := st (step false s1 (ORelease 1)) in
-  evs (step false s1 (ORelease 1)) = [EAdmit (Some 1%N) 1 0 1] /\
-  step false s2 (OCancel 1%N) = (s2, RNone, []).
+  let s1 := run code_guard (init 1) [OAcquire 1; OAcquire 1] in
+  let s2 := st (step code_guard s1 (ORelease 1)) in
+  evs (step code_guard s1 (ORelease 1)) = [EAdmit (Some 1%N) 1 0 1] /\
+  step code_guard s2 (OCancel 1%N) = (s2, RNone, []).
 Proof. vm_compute. split; reflexivity. Qed.
